@@ -2136,6 +2136,8 @@ impl Transaction {
                 updated,
                 removed,
             } => {
+                // Only the MemWAL index changes, the data stays as it is
+                final_fragments.extend(maybe_existing_fragments?.clone());
                 update_mem_wal_index_in_indices_list(
                     self.read_version,
                     current_manifest.map_or(1, |m| m.version + 1),
